@@ -1,1 +1,2 @@
 pub mod wire_eng;
+pub mod transport_eng;
